@@ -45,6 +45,7 @@ type World struct {
 	nilable    map[string]string
 	retNonNil  map[*ssa.Function]bool
 	alias      *aliasEngine
+	helperMemo map[string]map[string]string
 }
 
 func repoDir() string {
